@@ -426,6 +426,10 @@ var c17Codes = []int32{400, 420, 303, 401, 403, 404, 406, 500, 0, 1, -1, -503, 3
 
 func c17Gen(g *G) {
 	c17LoadFacts()
+	// error answers through the real request path: plain, packed, in containers, next to ordinary answers
+	g.Emit("c17.rpc e,e,o g0+1+2;w3;a0;a1z;a2", "rpc-error-delivery")
+	g.Emit("c17.rpc e,o,e g0+1+2;w3;c(a0z,a1z);c(p,a2z)", "rpc-error-delivery")
+	g.Emit("c17.rpc vl,e g0+1;w2;E0;a1z", "rpc-error-delivery")
 	code := func() int32 {
 		if g.R.Intn(3) == 0 {
 			return int32(uint32(g.R.U64()))
@@ -608,7 +612,30 @@ func c17Gen(g *G) {
 
 // ---- executor ---------------------------------------------------------------------------------------
 
+// c17Rpc: error answers delivered through the real request path (scripted peer of x_rpcsrv.go): plain, inside a
+// container, gzip_packed — the caller must get the structured error either way. The result line is "rpc ok" or
+// what the trace oracle objects to.
+func c17Rpc(op []string) string {
+	if len(op) != 3 {
+		return "bad-op"
+	}
+	trace, note := rsScenario(op[1], op[2])
+	if note != "" {
+		return "rpc bad: the scenario could not be completed: " + note
+	}
+	v := rsJudgeTrace(trace, 0, 0)
+	for _, c := range []string{v.c09, v.c10, v.c11, v.c16} {
+		if c != "" {
+			return "rpc bad: " + c
+		}
+	}
+	return "rpc ok"
+}
+
 func c17Exec(op []string) string {
+	if len(op) > 0 && op[0] == "c17.rpc" {
+		return c17Rpc(op)
+	}
 	unhex := func(s string) []byte {
 		if s == "-" {
 			return nil
@@ -677,6 +704,12 @@ func unhexS(s string) string {
 
 // c17Judge: the property, clause by clause, on the real code's result.
 func c17Judge(op []string, out string) string {
+	if len(op) > 0 && op[0] == "c17.rpc" {
+		if out != "rpc ok" {
+			return "an rpc_error answer did not reach its caller as the structured error: " + clip(out)
+		}
+		return ""
+	}
 	c17LoadFacts()
 	if len(op) < 2 {
 		return ""
